@@ -1307,6 +1307,42 @@ theorem src_foreign_is_model (f g : ZF α) (op : BinOp) :
     ALV.Gen.C05.ropZFilter f g = .error (ropZFilter op) :=
   ⟨rfl, rfl, rfl, rfl, rfl⟩
 
+/-! the filter list classes (`FilterList.__init__` / `__eq__` / `__ne__`, `CascadeFilter.numpoly` / `denpoly`,
+`ParallelFilter._sum_filter` / `numpoly` / `denpoly`).  The source of the polynomial properties is a FLAT `reduce` over
+the parts; the model `FL.polys` is a mutual recursion with accumulators: the theorems are stated on the flat form, fed
+with what the model gives for each part (`ps.toList.map FL.polys`, computed lazily, part by part). -/
+/-- `FilterList.__init__`: one argument that is iterable and not callable is unpacked, else the tuple of arguments -/
+theorem src_filterlist_init_is_model :
+    (ALV.Gen.C05.filterListInit : List (Arg α) → Option (FLs α)) = resolve := Src.filterListInit_is_model
+/-- `cls(*filters)` -/
+theorem src_filterlist_construct_is_model :
+    (ALV.Gen.C05.construct : Kind → List (Arg α) → Option (FL α)) = ALV.C05.construct := Src.construct_is_model
+/-- `FilterList.__eq__`: `type(self) == type(other) and list.__eq__(self, other)` -/
+theorem src_filterlist_eq_is_model (k k' : Kind) (a b : FLs α) :
+    ALV.Gen.C05.flEq k k' a b = FL.eq (.node k a) (.node k' b) := Src.flEq_is_model k k' a b
+/-- `FilterList.__ne__`: `type(self) != type(other) or list.__ne__(self, other)` -/
+theorem src_filterlist_ne_is_model (k k' : Kind) (a b : FLs α) :
+    ALV.Gen.C05.flNe k k' a b = FL.ne (.node k a) (.node k' b) := Src.flNe_is_model k k' a b
+/-- `CascadeFilter.numpoly` / `denpoly`: `reduce(operator.mul, (filt.numpoly for filt in self.callables))` -/
+theorem src_cascade_numpoly_is_model (s : ℕ) (ps : FLs α) :
+    ALV.Gen.C05.cascadeNumpoly (ps.toList.map FL.polys) = (FL.polys (.node ⟨false, s⟩ ps)).map Prod.fst :=
+  Src.cascadeNumpoly_is_model s ps
+theorem src_cascade_denpoly_is_model (s : ℕ) (ps : FLs α) :
+    ALV.Gen.C05.cascadeDenpoly (ps.toList.map FL.polys) = (FL.polys (.node ⟨false, s⟩ ps)).map Prod.snd :=
+  Src.cascadeDenpoly_is_model s ps
+/-- `ParallelFilter._sum_filter`: `reduce(operator.add, (ZFilter(filt.numpoly, filt.denpoly) for filt in self.callables))` -/
+theorem src_parallel_sum_filter_is_model (ps : FLs α) :
+    ALV.Gen.C05.sumFilter (ps.toList.map FL.polys) = (ps.sumF none >>= fun o => match o with
+      | none => .error .type
+      | some h => pure h) := Src.sumFilter_is_model ps
+/-- `ParallelFilter.numpoly` / `denpoly` as coded since the repair of D22 -/
+theorem src_parallel_numpoly_is_model (s : ℕ) (ps : FLs α) :
+    ALV.Gen.C05.parallelNumpoly ps.linear (ps.toList.map FL.polys) = (FL.polys (.node ⟨true, s⟩ ps)).map Prod.fst :=
+  Src.parallelNumpoly_is_model s ps
+theorem src_parallel_denpoly_is_model (s : ℕ) (ps : FLs α) :
+    ALV.Gen.C05.parallelDenpoly ps.linear (ps.toList.map FL.polys) = (FL.polys (.node ⟨true, s⟩ ps)).map Prod.snd :=
+  Src.parallelDenpoly_is_model s ps
+
 /-- hence every theorem about the model speaks about the regenerated code, e.g. totality on valid filters -/
 theorem src_operators_total {f g : ZF K} (hf : Valid f) (hg : Valid g) :
     (∃ h, ALV.Gen.C05.add f g = .ok h ∧ Valid h) ∧ (∃ h, ALV.Gen.C05.mul f g = .ok h ∧ Valid h) ∧
